@@ -1,6 +1,6 @@
 //go:build verif
 
-package hpke
+package hpke_test
 
 // C07 unit matrix: the full product suites x modes x info x (psk, psk_id) shapes x seeds.
 // Every value RFC 9180 defines is compared with the reference model on both roles, and the
@@ -9,6 +9,7 @@ package hpke
 import (
 	"bytes"
 	"fmt"
+	. "github.com/cloudflare/circl/hpke"
 	"testing"
 
 	"github.com/cloudflare/circl/internal/verifmc"
@@ -71,13 +72,13 @@ func (rp *c07Reporter) viol(entry, class, inputClass, format string, a ...interf
 
 // c07RunCase executes one case of the matrix.
 func c07RunCase(r *verifmc.Run, col *c07Collector, idx int, c *c07Case) {
-	k := c.suite.kemID
+	k := c07K(c.suite)
 	sch := k.Scheme()
 	ikmE := c07Ikm(sch.EncapsulationSeedSize(), c.seeds[0], 0)
 	ikmR := c07Ikm(sch.SeedSize(), c.seeds[1], 0)
 	ikmS := c07Ikm(sch.SeedSize(), c.seeds[2], 0)
 	rp := &c07Reporter{r: r, col: col, idx: idx, c: c, pay: map[string]interface{}{
-		"kem": fmt.Sprintf("%#04x", uint16(k)), "kdf": uint16(c.suite.kdfID), "aead": uint16(c.suite.aeadID), "mode": c.mode,
+		"kem": fmt.Sprintf("%#04x", uint16(k)), "kdf": uint16(c07D(c.suite)), "aead": uint16(c07A(c.suite)), "mode": c.mode,
 		"info": c07Hex(c.info), "psk": c07Hex(c.shape.psk), "psk_id": c07Hex(c.shape.pskID),
 		"ikmE": verifmc.FullHex(ikmE), "ikmR": verifmc.FullHex(ikmR), "ikmS": verifmc.FullHex(ikmS)}}
 	kn, mn := c07KEMName(k), c07ModeNames[c.mode]
@@ -209,6 +210,30 @@ func c07RunCase(r *verifmc.Run, col *c07Collector, idx int, c *c07Case) {
 		rp.viol(c07EntryS(c.mode), "enc differs from RFC 9180", cls, "enc = %s, RFC 9180 gives %s", c07Hex(enc), c07Hex(refEnc))
 		return
 	}
+	// the KEM's shared secret through the exported kem.Scheme interface (the context does not export it)
+	{
+		var skSb, pkSb []byte
+		if S != nil {
+			skSb, pkSb = S.libSK, S.libPK
+		}
+		ssS, encS, ssR, err := c07LibKEMSecrets(k, c.mode, R.libPK, skSb, ikmE, R.libSK, pkSb, refEnc)
+		r.Eval(2)
+		switch {
+		case err != nil:
+			rp.viol("kem.Scheme", "KEM-level encapsulation failed", cls, "%v", err)
+			return
+		case !bytes.Equal(encS, refEnc):
+			rp.viol("kem.Scheme.EncapsulateDeterministically", "enc differs from RFC 9180", cls, "enc = %s, RFC 9180 gives %s", c07Hex(encS), c07Hex(refEnc))
+			return
+		case !bytes.Equal(ssS, refS.SharedSecret):
+			rp.viol("kem.Scheme.EncapsulateDeterministically", "shared_secret differs from RFC 9180", cls, "shared_secret = %s, RFC 9180 gives %s", c07Hex(ssS), c07Hex(refS.SharedSecret))
+			return
+		case !bytes.Equal(ssR, refR.SharedSecret):
+			rp.viol("kem.Scheme.Decapsulate", "shared_secret differs from RFC 9180", cls, "shared_secret = %s, RFC 9180 gives %s", c07Hex(ssR), c07Hex(refR.SharedSecret))
+			return
+		}
+		r.Count("kem_secrets_compared", 1)
+	}
 	fs, seqS, err := c07LibFields(sealer)
 	if err != nil {
 		rp.viol("Sealer.MarshalBinary", "unusable", cls, "%v", err)
@@ -280,7 +305,7 @@ func c07RunCase(r *verifmc.Run, col *c07Collector, idx int, c *c07Case) {
 	// --- exports on both roles
 	ne := 0
 	for _, ectx := range c07ExportCtxs {
-		for _, l := range c07ExportLens(c.suite.kdfID) {
+		for _, l := range c07ExportLens(c07D(c.suite)) {
 			want, err := refS.Export(ectx, l)
 			if err != nil {
 				col.add(idx, "C07|harness|reference export failed|"+cls, c.id(), err.Error(), rp.pay)
@@ -306,7 +331,7 @@ func c07RunCase(r *verifmc.Run, col *c07Collector, idx int, c *c07Case) {
 	}
 	r.Count("exports_compared", ne)
 	// one past the bound: RFC 9180 5.3 allows L up to 255*Nh only; no value may come back silently truncated
-	l := 255*c.suite.kdfID.ExtractSize() + 1
+	l := 255*c07D(c.suite).ExtractSize() + 1
 	var got []byte
 	pan2, _ := verifmc.Try(func() { got = sealer.Export(nil, uint(l)) })
 	r.Eval(1)
@@ -341,7 +366,7 @@ func c07MatrixCases(r *verifmc.Run) []*c07Case {
 			if c07IsPSK(m) {
 				shapes = c07PSKShapes
 			}
-			if c07IsAuth(m) && !c07IsDHKEM(s.kemID) {
+			if c07IsAuth(m) && !c07IsDHKEM(c07K(s)) {
 				shapes = c07PSKShapes[1:2]
 				if !c07IsPSK(m) {
 					shapes = c07PSKShapes[:1]
@@ -350,7 +375,7 @@ func c07MatrixCases(r *verifmc.Run) []*c07Case {
 			for ii, info := range infos {
 				for _, sh := range shapes {
 					for _, sd := range seedSets {
-						if c07IsAuth(m) && !c07IsDHKEM(s.kemID) && (ii > 0 || sd != seedSets[0]) {
+						if c07IsAuth(m) && !c07IsDHKEM(c07K(s)) && (ii > 0 || sd != seedSets[0]) {
 							continue
 						}
 						cases = append(cases, &c07Case{suite: s, mode: m, infoIdx: ii, info: info, shape: sh, seeds: sd})
@@ -375,6 +400,7 @@ func TestVerifC07_matrix(t *testing.T) {
 	cases := c07MatrixCases(r)
 	r.Set("cases_enumerated", len(cases))
 	r.Set("suites", len(c07AllSuites()))
+	r.Set("internals_readout", c07InternalsAvailable())
 	r.Set("info_alphabet", len(c07Infos(r.Thorough())))
 	r.Set("psk_shapes", len(c07PSKShapes))
 	r.Set("msg_lens", c07MsgLens)
